@@ -45,6 +45,10 @@ PID = "C19"
 NS = "https://example.com/#"
 TFNS = "https://github.com/quangis/transforge#"
 
+import sys as _sys
+THIS = ("this-process hashseed=" + ("random" if _sys.flags.hash_randomization and
+        os.environ.get("PYTHONHASHSEED") in (None, "", "random") else "as-launched") + " guard=1")
+
 # root causes seen on the pinned tree
 SIG_TEXT = "type.py:text:constraints-and-bounds-printed-in-set-iteration-order"
 SIG_SRC = "workflow.py:source_types:unannotated-and-annotated-uses-override-each-other-in-listing-order"
@@ -166,6 +170,58 @@ def source_types_by_order(lang, case, orders):
             res = {"error": type(e).__name__}
         out[json.dumps([ao, so])] = res
     return out
+
+
+def to_rdflib(form):
+    from rdflib import Graph, BNode
+    from rdflib.util import from_n3
+    g = Graph()
+    bn = {}
+
+    def tm(x):
+        if x.startswith("_:"):
+            return bn.setdefault(x, BNode())
+        return from_n3(x)
+    for s, p, o in form:
+        g.add((tm(s), tm(p), tm(o)))
+    return g
+
+
+def rdflib_iso(f1, f2, seconds=4):
+    """rdflib.compare.isomorphic with a time limit (it does not terminate in reasonable
+    time on graphs with repeated identical parts) -> True | False | None"""
+    import signal
+    from rdflib.compare import isomorphic
+
+    def onalarm(*_):
+        raise TimeoutError
+    old = signal.signal(signal.SIGALRM, onalarm)
+    signal.alarm(seconds)
+    try:
+        return bool(isomorphic(to_rdflib(f1), to_rdflib(f2)))
+    except TimeoutError:
+        return None
+    finally:
+        signal.alarm(0)
+        signal.signal(signal.SIGALRM, old)
+
+
+def perturb(rng, form):
+    """a graph that differs in one place: a literal changed, or an edge redirected"""
+    form = [list(t) for t in form]
+    lits = [i for i, t in enumerate(form) if t[2].startswith('"')]
+    bl = [i for i, t in enumerate(form) if t[2].startswith("_:")]
+    nodes = sorted({t[0] for t in form if t[0].startswith("_:")})
+    if lits and (rng.random() < 0.5 or not bl):
+        i = rng.choice(lits)
+        form[i][2] = form[i][2][:-1] + '~"' if form[i][2].endswith('"') else form[i][2] + "~"
+        return form
+    if bl and len(nodes) > 1:
+        i = rng.choice(bl)
+        other = [n for n in nodes if n != form[i][2]]
+        form[i][2] = rng.choice(other)
+        return form
+    return None
 
 
 def howto(case) -> str:
@@ -457,7 +513,7 @@ def main(tier: str, seed: int, replay: str | None = None) -> int:
     failing = []        # (size, name, payload, signature)
     err_classes = Counter()
     for li, j in enumerate(jobs):
-        runs = [("this-process hashseed=0 guard=1", parent[li])]
+        runs = [(THIS, parent[li])]
         runs += [(f"fresh-interpreter hashseed={o['conf'][0]} guard={o['conf'][1]} junk={o['conf'][2]}",
                   o["results"][li]) for o in outs]
         lerrs = {r["lang_error"] for _, r in runs}
@@ -545,6 +601,46 @@ def main(tier: str, seed: int, replay: str | None = None) -> int:
                     pl["source_types_by_listing_order"] = dict(list(st.items())[:6])
             size = len(json.dumps(case)) + len(json.dumps(j["spec"])) // 4
             failing.append((size, f"{pre}nondeterministic_{kind}_{li}_{ci}", pl, sig))
+
+    # ---- the canonical forms against rdflib.compare.isomorphic, both ways, on a sample
+    xrng = random.Random(seed + 2)
+    xc = Counter()
+    pool = []
+    for li, j in enumerate(jobs):
+        for ci, case in enumerate(j["cases"]):
+            a = parent[li]["first"][ci] if not parent[li]["lang_error"] else None
+            if a and a["status"] == "ok" and a["canon"] == "exact" and 8 <= a["n"] <= 160 and outs:
+                b = outs[0]["results"][li]["first"][ci]
+                if b["status"] == "ok":
+                    pool.append((a["form"], b["form"]))
+    xrng.shuffle(pool)
+    for fa, fb in pool[:(30 if tier == "quick" else 150)]:
+        same = rdflib_iso(fa, fb)
+        if same is None:
+            xc["rdflib_timeout"] += 1
+            continue
+        xc["pairs_compared_with_rdflib"] += 1
+        if same != (fa == fb):
+            xc["disagree"] += 1
+            rep.violation(f"{pre}canonical_form_vs_rdflib_{xc['disagree']}", {"kind": "harness",
+                "what": "the harness's canonical form and rdflib.compare.isomorphic disagree",
+                "rdflib_isomorphic": same, "forms_equal": fa == fb, "first": fa[:40], "second": fb[:40]},
+                has_input=False)
+        pf = perturb(xrng, fa)
+        if pf is not None:
+            k1, c1 = I.canonical(pf)
+            diff = rdflib_iso(fa, pf)
+            if diff is None:
+                xc["rdflib_timeout"] += 1
+            else:
+                xc["perturbed_compared_with_rdflib"] += 1
+                xc["perturbed_non_isomorphic"] += not diff
+                if diff != (c1 == fa):
+                    xc["disagree"] += 1
+                    rep.violation(f"{pre}canonical_form_vs_rdflib_{xc['disagree']}", {"kind": "harness",
+                        "what": "the harness's canonical form and rdflib.compare.isomorphic disagree on a perturbed graph",
+                        "rdflib_isomorphic": diff, "forms_equal": c1 == fa, "first": fa[:40], "second": pf[:40]},
+                        has_input=False)
 
     failing.sort(key=lambda t: t[0])
     by_sig = Counter()
@@ -676,7 +772,7 @@ def main(tier: str, seed: int, replay: str | None = None) -> int:
                 "were generated in every configuration and compared",
         "cases": ncases, "graphs_accepted": n_graphs,
         "interpreters": [f"hashseed={c[0]} {C.GUARD}={c[1]} junk_objects={c[2]}" for c in confs]
-                        + ["this process: hashseed=0 guard=1"],
+                        + [THIS],
         "passes_per_interpreter": ["first (fresh language)", "again (same language, after all other cases, reverse order)",
                                    "rebuilt (language built a second time in the same process)"],
         "workflow_listing_orders_tried": n_orders,
@@ -685,6 +781,7 @@ def main(tier: str, seed: int, replay: str | None = None) -> int:
         "mean_triples_per_graph": round(dist["triples"] / max(1, n_graphs), 1),
         "rejected_inputs_by_exception": dict(err_classes.most_common(8)),
         "correspondence": dict(corr), "disagreements": len(disagree),
+        "canonical_form_crosscheck": dict(xc),
         "samples": samples, "exhaustive": False,
         "wall_after_proof_s": round(time.time() - t_start, 1)})
     rep.assumptions = [
